@@ -34,6 +34,7 @@ import (
 	"github.com/oxia-db/oxia/common/process"
 	"github.com/oxia-db/oxia/common/rpc"
 	time2 "github.com/oxia-db/oxia/common/time"
+	"github.com/oxia-db/oxia/common/vhook"
 
 	"github.com/oxia-db/oxia/common/entity"
 
@@ -295,6 +296,9 @@ func (lc *leaderController) NewTerm(req *proto.NewTermRequest) (*proto.NewTermRe
 		"Leader successfully initialized in new term",
 		slog.Any("last-entry", headEntryId),
 	)
+	if vhook.Enabled {
+		vhook.At("leader.newterm.done", lc.wal, req.Term, headEntryId.Offset)
+	}
 
 	return &proto.NewTermResponse{
 		HeadEntryId: headEntryId,
@@ -384,6 +388,9 @@ func (lc *leaderController) BecomeLeader(ctx context.Context, req *proto.BecomeL
 	)
 
 	lc.status = proto.ServingStatus_LEADER
+	if vhook.Enabled {
+		vhook.At("leader.become.done", lc.wal, lc.term, lc.leaderElectionHeadEntryId.Offset)
+	}
 	return &proto.BecomeLeaderResponse{}, nil
 }
 
@@ -846,6 +853,9 @@ func (lc *leaderController) write(ctx context.Context, requestSupplier func(offs
 	tracker := lc.quorumAckTracker
 	term := lc.term
 	lc.Unlock()
+	if vhook.Enabled {
+		vhook.At("leader.write.allocated", lc.shardId, term, newOffset)
+	}
 	request := requestSupplier(newOffset)
 
 	lc.log.Debug("Append operation", slog.Any("req", request))
